@@ -15,7 +15,7 @@ extern "C" void sym_body()
     const auto          tsc   = static_cast<scaling_type>(cfgi("ts", 0));
     symsource_t         src(kinds, n, tgt, static_cast<int>(cfgi("miss", 0)));
     src.load();
-    dataset_t ds(src, 1);
+    dataset_t ds(src, setup_workers(cfgi("threads", 1), cfgi("sched", 0))); // threads>1: sequentialised multi-worker pool (see sre_support.cpp)
     add_identity_generators(ds);
     const auto samples = all_samples(n);
 
